@@ -481,7 +481,7 @@ func r01_5(c *Ctx, rule string) {
 	c.ObSuccessNeeds(rule, base+"/success-needs-chtimes", lit, nil, nil, c.callPred("fsutil.chtimes"), "chtimes after the content was written")
 	c.ObPrecedes(rule, base+"/content-before-chtimes", lit, nil, c.checkedCallPred("fsutil.(*DiskWriter).processChange"), c.callPred("fsutil.chtimes"), "a checked processChange", "chtimes")
 	// the writer is a lazyFileWriter on the same destination path
-	raf := lit.Parent()
+	raf := c.P.Encloser(lit)
 	for _, call := range c.P.CallsTo(lit, "fsutil.(*DiskWriter).processChange") {
 		w := call.Common().Args[len(call.Common().Args)-1]
 		al, _ := eng.Strip(w).(*ssa.Alloc)
